@@ -347,30 +347,43 @@ def rule_dflt(c, prog):
     else:
         c.ok(R, "dflt:decisions")
     c.floor(R, n_dec, 1, "decisions in find_default_property")
-    # order inside one step of the walk: the class's own defaults are consulted before the walk can end for want of a
-    # superclass — otherwise a default recorded on a root class (no superclass) is never found
-    from .C13 import sp_key
-    for lp in core.walk_fn(fn):
-        if lp.get("k") != "Loop":
-            continue
-        looks = [x for x in core.walk(lp) if is_lookup(x)]
-        if not looks:
-            continue
-        first_lookup = min(sp_key(x) for x in looks)
-        early = []
-        for x in core.walk(lp):
-            t = core.as_try(x)
-            if t is not None:
-                _r, pth = core.place_root(t)
-                if "superclass" in pth and sp_key(x) < first_lookup:
-                    early.append(x)
-            if x.get("k") in ("If", "Match") and sp_key(x) < first_lookup:
-                cnd = x.get("c") or x.get("e")
-                _r, pth = core.place_root(cnd.get("init") if core.strip(cnd).get("k") == "LetExpr" else cnd)
-                if "superclass" in pth and any(y.get("k") in ("Ret", "Break") for y in core.walk(x)):
-                    early.append(x)
-        if early:
-            c.violation(R, "dflt|root-skipped", "find_default_property leaves the walk when a class has no superclass *before* looking at that class's own defaults: a default recorded on a root class is never returned (with a custom database whose defaults live on the root, instances lacking the property are filled with a zeroed fallback)", core.loc(early[0]), instance="dflt:own-defaults-before-chain-end")
+    # the class's own defaults are consulted before the walk can end for want of a superclass — otherwise a default
+    # recorded on a root class (no superclass) is never found.  Decided on the control-flow graph, whatever shape the
+    # loop has: from every point where the walk's current class is (re)defined — entry, and each assignment to it —
+    # every path to a read of `<class>.superclass` passes a read of `<class>.default_properties`.
+    from sa import discipline as _D
+    if fn.mir:
+        cfg = _D.CFG(fn)
+        F_DEF, F_SUP = "ClassDescriptor.default_properties", "ClassDescriptor.superclass"
+
+        def reads(bb, fld):
+            out = set()
+            for st in bb["stmts"]:
+                for op in st.get("ops") or []:
+                    if op.get("k") == "place" and any(isinstance(p_, str) and p_.endswith(fld) for p_ in op.get("proj") or []):
+                        out.add(op["l"])
+            for a in bb["term"].get("args") or []:
+                if a.get("k") == "place" and any(isinstance(p_, str) and p_.endswith(fld) for p_ in a.get("proj") or []):
+                    out.add(a["l"])
+            return out
+        L = {b for b, bb in enumerate(cfg.blocks) if reads(bb, F_DEF)}
+        S = {b for b, bb in enumerate(cfg.blocks) if reads(bb, F_SUP)}
+        cls = set()
+        for bb in cfg.blocks:
+            cls |= reads(bb, F_DEF) | reads(bb, F_SUP)
+        starts = {0}
+        for b, bb in enumerate(cfg.blocks):
+            t = bb["term"]
+            if t["k"] == "call" and t.get("dest") and t["dest"].get("l") in cls and not t["dest"].get("proj"):
+                starts |= set(t.get("targets", [])[:1])
+            for st in bb["stmts"]:
+                if st.get("k") == "assign" and st["lhs"].get("l") in cls and not st["lhs"].get("proj"):
+                    starts.add(b)
+        if not L or not S:
+            raise core.AnchorMissing("find_default_property: no read of default_properties / superclass in its MIR")
+        bad_start = [d_ for d_ in sorted(starts) if d_ not in L and not cfg.must_pass(d_, L, S - L)]
+        if bad_start:
+            c.violation(R, "dflt|root-skipped", "find_default_property can read a class's `superclass` (and leave the walk when there is none) without having looked at that class's own defaults: a default recorded on a root class is never returned (with a custom database whose defaults live on the root, instances lacking the property are filled with a zeroed fallback)", fn.sp, instance="dflt:own-defaults-before-chain-end")
         else:
             c.ok(R, "dflt:own-defaults-before-chain-end")
 
